@@ -201,7 +201,8 @@ CHECKS["C19"] = dict(
 
 
 def _c17_stages(tier):
-    common = dict(cmd="c17", shards=16, timeout=3000, crash_is_violation=True, crash_desc="child process died while decoding")
+    common = dict(cmd="c17", shards=16, timeout=3000, crash_is_violation=True, crash_desc="child process died while decoding",
+                  confirm=dict(cmd="c17-one", cpu=200))
     return [dict(variant="vh", crash_witness="/verif/build/c17.current.json.{shard}", **common),
             dict(variant="vh-bin", crash_witness="/verif/build/c17.current.bin.{shard}", **common)]
 
@@ -224,7 +225,8 @@ CHECKS["C17"] = dict(
           "(exhaustive_short_inputs, grid_inputs) - they are distinct by construction"),
     assumptions=["DecodeObjectToStr has no error result and reports malformed input by panicking with an error value: only runtime.Error panics count for it",
                  "journald's Send fails here for lack of a socket after decoding; any return value is accepted",
-                 "a shard whose input runs > 20 s stops and reports inconclusive with the witness path; non-termination is not concluded from wall-clock alone"],
+                 "a shard whose input runs > 20 s (wall clock) only raises a suspicion and stops; the witness is then decoded alone under RLIMIT_CPU = 200 "
+                 "CPU-seconds: exhausting that budget is reported as non-termination, finishing within it leaves the suspicion inconclusive"],
     require=dict(decoder_calls=1000000, cut_points=10000),
 )
 
